@@ -6,6 +6,7 @@
 package os
 
 import (
+	"errors"
 	"io"
 	"io/fs"
 	stdos "os"
@@ -202,6 +203,55 @@ func (f *File) Stat() (FileInfo, error) {
 		return simInfo{f.name, f.spec}, nil
 	}
 	return f.File.Stat()
+}
+
+// Seek moves the position of a simulated file (no bytes are delivered).
+func (f *File) Seek(off int64, whence int) (int64, error) {
+	if f != nil && f.sim != nil {
+		if f.shut {
+			return 0, &fs.PathError{Op: "seek", Path: f.name, Err: ErrClosed}
+		}
+		if f.spec.IsDir {
+			return 0, nil
+		}
+		if t := core.Cur(); t != nil {
+			t.Yield(core.KYield, nil, "file-seek", off)
+		}
+		np, err := f.sim.Seek(off, whence)
+		if err != nil {
+			return np, &fs.PathError{Op: "seek", Path: f.name, Err: syscall.EINVAL}
+		}
+		return np, nil
+	}
+	return f.File.Seek(off, whence)
+}
+
+// ReadAt serves pread on a simulated file: it does not move the position; it
+// fails where the file's delivery schedule places the fault, and reports io.EOF
+// when fewer than len(p) bytes exist beyond off, as io.ReaderAt prescribes.
+func (f *File) ReadAt(p []byte, off int64) (int, error) {
+	if f != nil && f.sim != nil {
+		if f.shut {
+			return 0, &fs.PathError{Op: "read", Path: f.name, Err: ErrClosed}
+		}
+		if off < 0 {
+			return 0, &fs.PathError{Op: "readat", Path: f.name, Err: errors.New("negative offset")}
+		}
+		if t := core.Cur(); t != nil {
+			t.Yield(core.KRead, nil, "file-readat", int64(len(p)))
+		}
+		if f.spec.IsDir {
+			f.sim.Calls++
+			f.sim.Faulted = true
+			return 0, &fs.PathError{Op: "read", Path: f.name, Err: syscall.EISDIR}
+		}
+		n, err := f.sim.ReadAt(p, off)
+		if t := core.Cur(); t != nil {
+			t.Yield(core.KReadRet, nil, "file-readat", int64(n))
+		}
+		return n, err
+	}
+	return f.File.ReadAt(p, off)
 }
 
 // WriteTo keeps io.Copy on a simulated file going through Read.
